@@ -1,9 +1,258 @@
-//! Slice monitor C13. (filled in below)
+//! C13: slice() / slice_some() return exactly the reachable sub-graph. The oracle is a closure
+//! computed by the monitor from the source's own kids() and a pure predicate table.
+
 use crate::hist::{Ctx, HistMonitor, HistStats};
-use crate::ops::Op;
-use crate::rec::{Outcome, Session};
-#[derive(Default)] pub struct C13;
+use crate::ops::{label_text, Op};
+use crate::rec::{digest, first_diff, guarded, Outcome, Session, O_EDGES, O_KEYS};
+use crate::rng::Fnv;
+use sodg::Label;
+use std::cell::Cell;
+use std::collections::{BTreeMap, BTreeSet};
+
+#[derive(Default)]
+pub struct C13 {
+    since: usize,
+    pub qualified: u64,
+    pub slices: u64,
+}
+
+#[derive(Clone, Copy, Debug)]
+pub enum Pred {
+    All,
+    None,
+    Percent(u64, u64),
+    LabelParity(u64),
+    NotInto(usize),
+}
+
+impl Pred {
+    pub fn accept(&self, from: usize, to: usize, l: Label) -> bool {
+        match self {
+            Pred::All => true,
+            Pred::None => false,
+            Pred::Percent(p, seed) => {
+                let mut f = Fnv::new();
+                f.write_u64(*seed);
+                f.write_u64(from as u64);
+                f.write_u64(to as u64);
+                f.write_str(&label_text(&l));
+                // FNV's low bits are weak: mix
+                let mut x = f.0;
+                (crate::rng::splitmix(&mut x) % 100) < *p
+            }
+            Pred::LabelParity(seed) => {
+                let mut f = Fnv::new();
+                f.write_u64(*seed);
+                f.write_str(&label_text(&l));
+                let mut x = f.0;
+                crate::rng::splitmix(&mut x) % 2 == 0
+            }
+            Pred::NotInto(v) => to != *v,
+        }
+    }
+}
+
+type Edges = BTreeMap<usize, Vec<(Label, usize)>>;
+
+/// Everything reachable from v over all edges, or None if it leaves the present set / exceeds 14.
+fn reachable_all(keys: &BTreeSet<usize>, edges: &Edges, v: usize) -> Option<BTreeSet<usize>> {
+    let mut seen = BTreeSet::new();
+    let mut todo = vec![v];
+    while let Some(x) = todo.pop() {
+        if !keys.contains(&x) {
+            return None;
+        }
+        if !seen.insert(x) {
+            continue;
+        }
+        for (_, t) in &edges[&x] {
+            if !seen.contains(t) {
+                todo.push(*t);
+            }
+        }
+    }
+    if seen.len() > 14 {
+        None
+    } else {
+        Some(seen)
+    }
+}
+
+fn closure(edges: &Edges, v: usize, p: &Pred) -> BTreeSet<usize> {
+    let mut seen = BTreeSet::new();
+    seen.insert(v);
+    let mut todo = vec![v];
+    while let Some(x) = todo.pop() {
+        for (l, t) in &edges[&x] {
+            if !seen.contains(t) && p.accept(x, *t, *l) {
+                seen.insert(*t);
+                todo.push(*t);
+            }
+        }
+    }
+    seen
+}
+
+fn has_cycle(edges: &Edges, within: &BTreeSet<usize>) -> bool {
+    // colour DFS
+    fn go(u: usize, edges: &Edges, within: &BTreeSet<usize>, col: &mut BTreeMap<usize, u8>) -> bool {
+        col.insert(u, 1);
+        for (_, t) in &edges[&u] {
+            if !within.contains(t) {
+                continue;
+            }
+            match col.get(t).copied().unwrap_or(0) {
+                1 => return true,
+                0 => {
+                    if go(*t, edges, within, col) {
+                        return true;
+                    }
+                }
+                _ => {}
+            }
+        }
+        col.insert(u, 2);
+        false
+    }
+    let mut col = BTreeMap::new();
+    for u in within {
+        if col.get(u).copied().unwrap_or(0) == 0 && go(*u, edges, within, &mut col) {
+            return true;
+        }
+    }
+    false
+}
+
+impl C13 {
+    pub fn check_slices(&mut self, s: &mut Session, ctx: &mut Ctx, exhaustive_starts: bool) -> Option<String> {
+        let keys: BTreeSet<usize> = s.g.keys().into_iter().collect();
+        let mut edges: Edges = BTreeMap::new();
+        for v in &keys {
+            edges.insert(*v, s.g.kids(*v));
+        }
+        let before = digest(s.g.as_ref(), O_KEYS | O_EDGES, &ctx.labels);
+        let mut starts: Vec<usize> = keys.iter().copied().collect();
+        ctx.rng.shuffle(&mut starts);
+        if !exhaustive_starts {
+            starts.truncate(3);
+        }
+        for v in starts {
+            let Some(reach) = reachable_all(&keys, &edges, v) else {
+                ctx.c.inc("c13.start-outside-quantifier");
+                continue;
+            };
+            let cyclic = has_cycle(&edges, &reach);
+            let seed = ctx.rng.next();
+            let mut preds = vec![Pred::All, Pred::None, Pred::Percent(30, seed), Pred::Percent(50, seed ^ 1), Pred::Percent(80, seed ^ 2), Pred::LabelParity(seed)];
+            let rv: Vec<usize> = reach.iter().copied().collect();
+            preds.push(Pred::NotInto(*ctx.rng.pick(&rv)));
+            let n_edges: usize = reach.iter().map(|u| edges[u].len()).sum();
+            let bound = (n_edges * reach.len() + 16) as u64;
+            for p in preds {
+                let calls = Cell::new(0u64);
+                let pf = |a: usize, b: usize, l: Label| -> bool {
+                    calls.set(calls.get() + 1);
+                    assert!(calls.get() <= bound, "predicate invoked more than |E|*|V|+16 = {bound} times: slice does not terminate");
+                    p.accept(a, b, l)
+                };
+                if let Some(f) = &mut s.sink {
+                    use std::io::Write;
+                    let _ = writeln!(f, "# slice_some({v}, {p:?})");
+                }
+                let r = guarded(|| s.g.slice_some(v, &pf));
+                self.slices += 1;
+                ctx.c.inc("c13.slices-checked");
+                let sl = match r {
+                    Err(pn) => return Some(format!("slice_some({v}, {p:?}) panicked: {pn}")),
+                    Ok(Err(e)) => return Some(format!("slice_some({v}, {p:?}) returned Err: {e}")),
+                    Ok(Ok(g)) => g,
+                };
+                let kept = closure(&edges, v, &p);
+                let got: BTreeSet<usize> = sl.keys().into_iter().collect();
+                if got != kept {
+                    return Some(format!(
+                        "slice_some({v}, {p:?}) has vertices {got:?}; reachable over accepted edges are {kept:?}"
+                    ));
+                }
+                let mut rejected_but_kept = false;
+                for u in &kept {
+                    let sk = sl.kids(*u);
+                    // no edge that the source lacks, no label twice
+                    let mut seen = BTreeSet::new();
+                    for (l, t) in &sk {
+                        if !edges[u].iter().any(|(a, b)| a == l && b == t) {
+                            return Some(format!("slice_some({v}, {p:?}): edge ν{u}.{l}→ν{t} is not in the source"));
+                        }
+                        if !seen.insert(*l) {
+                            return Some(format!("slice_some({v}, {p:?}): ν{u} lists label {l} twice"));
+                        }
+                    }
+                    // every accepted edge between kept vertices
+                    for (l, t) in &edges[u] {
+                        if !kept.contains(t) {
+                            continue;
+                        }
+                        if p.accept(*u, *t, *l) {
+                            if sl.kid(*u, *l) != Some(*t) {
+                                return Some(format!(
+                                    "slice_some({v}, {p:?}): accepted edge ν{u}.{l}→ν{t} between kept vertices is missing (kid = {:?})",
+                                    sl.kid(*u, *l)
+                                ));
+                            }
+                        } else {
+                            rejected_but_kept = true;
+                        }
+                    }
+                }
+                if matches!(p, Pred::All) {
+                    // slice(v) == slice_some(v, accept-all)
+                    let r2 = guarded(|| s.g.slice(v));
+                    match r2 {
+                        Ok(Ok(g2)) => {
+                            let a = digest(sl.as_ref(), O_KEYS | O_EDGES, &ctx.labels);
+                            let b = digest(g2.as_ref(), O_KEYS | O_EDGES, &ctx.labels);
+                            if a != b {
+                                return Some(format!("slice({v}) differs from slice_some({v}, accept-all): {}", first_diff(&b, &a)));
+                            }
+                        }
+                        Ok(Err(e)) => return Some(format!("slice({v}) returned Err: {e}")),
+                        Err(pn) => return Some(format!("slice({v}) panicked: {pn}")),
+                    }
+                }
+                if cyclic && rejected_but_kept {
+                    self.qualified += 1;
+                }
+            }
+        }
+        let after = digest(s.g.as_ref(), O_KEYS | O_EDGES, &ctx.labels);
+        if before != after {
+            return Some(format!("slicing changed the source graph: {}", first_diff(&before, &after)));
+        }
+        None
+    }
+}
+
 impl HistMonitor for C13 {
-    fn after(&mut self, _s: &mut Session, _op: &Op, _o: &Outcome, _c: &mut Ctx) -> Option<String> { None }
-    fn nontrivial(&self, _c: &HistStats) -> bool { false }
+    fn after(&mut self, s: &mut Session, op: &Op, _o: &mut Outcome, ctx: &mut Ctx) -> Option<String> {
+        if !matches!(op, Op::Bind(..) | Op::Data(_) | Op::Add(_)) {
+            return None;
+        }
+        self.since += 1;
+        if self.since < 6 {
+            return None;
+        }
+        self.since = 0;
+        self.check_slices(s, ctx, false)
+    }
+    fn finish(&mut self, s: &mut Session, ctx: &mut Ctx) -> Option<String> {
+        let r = self.check_slices(s, ctx, true);
+        ctx.c.add("c13.cyclic-with-rejected-edge-into-kept", self.qualified);
+        r
+    }
+    fn nontrivial(&self, _c: &HistStats) -> bool {
+        self.qualified >= 1
+    }
+    fn owns_panic(&self, op: &Op) -> bool {
+        matches!(op, Op::Slice(_))
+    }
 }
